@@ -142,11 +142,18 @@ def step (s : Sess) (c : Cmd) : Sess × String × String :=
   | "new" | "new_default" =>
     let isDef := c.op == "new_default"
     let dl := c.nat "esize" 1
-    if (getSlot s.model k).isSome || dl == 0 || dl > 64 then simple { s with mem := m } "st=- badslot" else
+    if (getSlot s.model k).isSome || dl > 64 then simple { s with mem := m } "st=- badslot" else
     let cap := if isDef then Gen.SIZED_DEFAULT_CAPACITY else c.nat "cap" Gen.SIZED_DEFAULT_CAPACITY
     let ex := if isDef then Float32.ofScientific Gen.SIZED_DEFAULT_EXPANSION_FACTOR_MILLI true 3 else effFactor c
+    /- the harness allocator refuses any request above 2^40 bytes ("absurd", reported as
+       CC_ERR_ALLOC but not counted as a scheduled refusal): mirror it for the buffer request -/
+    let sc := c.sched
+    let absurd := cap * dl > 2 ^ 40 && !(sc.getD 0 false) && !(sc.getD 1 false)
+    let m := if absurd then s.mem.begin [false, true] else m
     let (st, a, m) := ArraySized.new dl cap (growOf ex) (exGeOf ex) m
+    let m := if absurd && st == .errAlloc then { m with nrefused := m.nrefused - 1 } else m
     let sst : Stat := if cap = 0 || exGeOf ex (Gen.CC_MAX_ELEMENTS / cap) then .errInvalidCapacity
+      else if dl = 0 || cap > Gen.CC_MAX_ELEMENTS / dl then .errInvalidCapacity
       else if c.fired > 0 then .errAlloc else .ok
     let s' : Sess := { s with model := setSlot s.model k a, spec := setSlot s.spec k (if sst = .ok then some [] else none),
                               mem := m, defaultMode := s.defaultMode || isDef }
